@@ -3,7 +3,7 @@ import ast
 from .. import alg
 from ..alg import Rat, C
 from ..model import AnalysisError
-from ..symval import Evaluator, Tup, Obj, NoneV, NONE, CallV, Bool
+from ..symval import Evaluator, Tup, Obj, NoneV, NONE, CallV, Bool, Mat
 from ..symcheck import Oracle, check_equal, compare_values, show
 from ..rules import where
 from ..mutate import replace_in_function, substitute
@@ -65,21 +65,27 @@ def run(repo, rep):
         f = repo.func('geodepy.transform', fname)
         rep.analysed(f)
         w = where(f, f.node)
-        ev = Evaluator(repo, opaque=OPAQUE)
         ps = [p.name for p in f.params]
-        args = {ps[0]: Rat.sym('zone'), ps[1]: Rat.sym('east'), ps[2]: Rat.sym('north'), ps[3]: Rat.sym('ell_ht'), ps[4]: Rat.sym('vcv')}
-        val = ev.call_function(f, args)
-        orc = Oracle(ORACLE, base=repo, opaque=OPAQUE)
-        ref = orc.call('pipeline', zone=Rat.sym('zone'), east=Rat.sym('east'), north=Rat.sym('north'), ell_ht=Rat.sym('ell_ht'),
-                       vcv=Rat.sym('vcv'), forward=Bool(fwd))
         base = 'R-WIRE::geodepy/transform.py::%s::' % fname
-        if not isinstance(val, Tup) or len(val.items) != 5:
-            rep.undecided('R-WIRE', base + 'shape', w, '%s does not evaluate to a 5-tuple' % fname)
-            continue
-        for i in range(5):
-            check_equal(rep, 'R-WIRE', base + names[i].replace(' ', '-'), w, val.items[i], ref.items[i],
-                        '%s of %s = the stepwise composition grid2geo -> llh2xyz -> conform7(%s) -> xyz2llh -> geo2grid' % (
-                            names[i], fname, 'gda94_to_gda2020' if fwd else '-gda94_to_gda2020'))
+        # three covariance configurations of the quantifier: absent, 3x3, 3x1 column of variances (= its diagonal matrix)
+        full = Mat([[Rat.sym('v%d%d' % (i, j)) for j in range(3)] for i in range(3)], (3, 3))
+        col = Mat([[Rat.sym('v%d%d' % (i, i))] for i in range(3)], (3, 1))
+        diag = Mat([[Rat.sym('v%d%d' % (i, i)) if i == j else C(0) for j in range(3)] for i in range(3)], (3, 3))
+        for cfg, vin, vref in (('', NONE, NONE), ('[3x3]', full, full), ('[3x1]', col, diag)):
+            ev = Evaluator(repo, opaque=OPAQUE)
+            args = {ps[0]: Rat.sym('zone'), ps[1]: Rat.sym('east'), ps[2]: Rat.sym('north'), ps[3]: Rat.sym('ell_ht'), ps[4]: vin}
+            val = ev.call_function(f, args)
+            orc = Oracle(ORACLE, base=repo, opaque=OPAQUE)
+            ref = orc.call('pipeline', zone=Rat.sym('zone'), east=Rat.sym('east'), north=Rat.sym('north'), ell_ht=Rat.sym('ell_ht'),
+                           vcv=vref, forward=Bool(fwd))
+            if not isinstance(val, Tup) or len(val.items) != 5:
+                rep.undecided('R-WIRE', base + 'shape' + cfg, w, '%s does not evaluate to a 5-tuple' % fname)
+                continue
+            for i in range(5):
+                check_equal(rep, 'R-WIRE', base + names[i].replace(' ', '-') + cfg, w, val.items[i], ref.items[i],
+                            '%s of %s = the stepwise composition grid2geo -> llh2xyz -> conform7(%s) -> xyz2llh -> geo2grid%s' % (
+                                names[i], fname, 'gda94_to_gda2020' if fwd else '-gda94_to_gda2020',
+                                {'': ' (no covariance)', '[3x3]': ' (3x3 covariance)', '[3x1]': ' (3x1 variance column = its diagonal matrix)'}[cfg]))
         # default arguments: no call hands a non-default hemisphere / ellipsoid / projection
         for caller, callee, bound, node in ev.calls:
             if caller != fname:
@@ -113,7 +119,31 @@ def run(repo, rep):
                                  expected='>= 4', actual=str(digits))
                 else:
                     rep.holds('R-ROUND', key, '%s:%d' % (f.module.relpath, line), 'height rounded to %d decimals' % digits)
-    rep.floor('R-WIRE', 10, 'five results of two functions')
+    rep.floor('R-WIRE', 30, 'five results of two functions in three covariance configurations')
+    shape_rules(repo, rep)
+
+
+def shape_rules(repo, rep):
+    """both covariance shapes of the quantifier (3x3 and a 3x1 variance column) must reach a 3x3 result without an indexing error"""
+    from ..symval import Mat
+    for fname in ('transform_mga94_to_mga2020', 'transform_mga2020_to_mga94'):
+        f = repo.func('geodepy.transform', fname)
+        ps = [p.name for p in f.params]
+        for shp in ((3, 3), (3, 1)):
+            ev = Evaluator(repo, opaque={'grid2geo', 'llh2xyz', 'xyz2llh', 'geo2grid'})
+            V = Mat([[Rat.sym('v%d%d' % (i, j)) for j in range(shp[1])] for i in range(shp[0])], shp)
+            val = ev.call_function(f, {ps[0]: Rat.sym('zone'), ps[1]: Rat.sym('east'), ps[2]: Rat.sym('north'), ps[3]: Rat.sym('ell_ht'), ps[4]: V})
+            key = 'R-SHAPE::geodepy/transform.py::%s::vcv%dx%d' % (fname, shp[0], shp[1])
+            probs = [(k, wh, msg) for k, wh, msg in ev.diagnostics if k in ('shape', 'shape-store')]
+            out = val.items[4] if isinstance(val, Tup) and len(val.items) == 5 else None
+            if probs:
+                k, wh, msg = probs[0]
+                rep.violated('R-SHAPE', key, wh or where(f, f.node), 'a %dx%d covariance does not get through the pipeline: %s (IndexError / shape error at run time)' % (shp[0], shp[1], msg),
+                             expected='a 3x3 covariance reaches conform7', actual=msg)
+            elif isinstance(out, Mat) and out.shape == (3, 3):
+                rep.holds('R-SHAPE', key, where(f, f.node), 'a %dx%d input covariance yields a 3x3 local covariance' % shp)
+            else:
+                rep.undecided('R-SHAPE', key, where(f, f.node), 'result covariance for a %dx%d input: %s' % (shp[0], shp[1], show(out, 2, 80)))
 
 
 def controls(repo):
